@@ -110,8 +110,12 @@ def draw_instance(rng, *, nb=None, k=None, N=None, hermitian_mode=True, custom=F
             sizes = rng.choice([c for c in hermitian.compositions(d) if len(c) == (nb or rng.choice([2, 2, 3]))])
             vt = rng.choice(["numpy", "numpy_complex", "sparse"])
             fdkind = "none" if custom else None
+            # non-Hermitian problems: complex unperturbed levels in half of the instances (the two
+            # orientations (i, j) / (j, i) of a block pair then have different denominators)
+            cE = (not hermitian_mode) and not custom and vt != "sparse" and rng.random() < 0.5
             return hermitian.gen_instance(rng, d=d, sizes=sizes, k=k or rng.choice([1, 1, 2]), N=N,
-                                          vtype=vt, fdkind=fdkind, hermitian=hermitian_mode)
+                                          vtype="numpy_complex" if cE else vt, fdkind=fdkind,
+                                          hermitian=hermitian_mode, complex_E=cE)
         except Regenerate:
             continue
     raise MachineryError("could not draw an engine instance")
@@ -273,6 +277,9 @@ def run(pid, tier, seed, replay=None):
                 stats["transitions"] += r1.generated
                 for s in scheds[: (1 if quick else 3)]:
                     sched = concretise(s, inst)
+                    # always one multi-element (slice) request on uncached elements first: a fault while some
+                    # elements of the request are still to be evaluated
+                    sched = [(0, ("Ht", 0, 0, (("s", min(inst["N"], 2) + 1),) + (0,) * (inst["k"] - 1)))] + sched
                     if ikind == "algebra":
                         # make sure element products happen: a top-order element of H_tilde
                         top = max(order_seq(inst["k"], inst["N"]), key=lambda m: (sum(m), min(m)))
@@ -306,6 +313,20 @@ def run(pid, tier, seed, replay=None):
                     if inst_s["d"] <= 4:
                         add("lazy-causal-sympy", inst_s, concretise(
                             [x for x in s if x[2] < 2 and x[3] < 2], inst_s), input_kind="lazy_sympy", recheck=0)
+                if n_ % 5 == 3:
+                    # the same clauses in IMPLICIT mode (incomplete eigenvectors, direct solver): requests on the
+                    # explicit blocks only
+                    for _try in range(12):
+                        inst_i = draw_instance(rng, nb=[2, 3][_try % 2], k=[1, 2][n_ % 2], N=2)
+                        if inst_i["sizes"][-1] >= 2:
+                            break
+                    nbi = len(inst_i["sizes"])
+                    if inst_i["fdkind"] == "dict" or (nbi - 1) in inst_i["fd_blocks"]:
+                        inst_i["fdkind"], inst_i["fd_blocks"], inst_i["masks"] = "none", [], {}
+                    if inst_i["sizes"][-1] >= 2:
+                        add("lazy-causal-implicit", inst_i, concretise(
+                            [x for x in s if x[2] < nbi - 1 and x[3] < nbi - 1], inst_i),
+                            input_kind="lazy_implicit", recheck=0)
                 if n_ % 4 == 3:
                     inst_a = draw_instance(rng, nb=len(inst["sizes"]), k=inst["k"], N=3, custom=True)
                     add("lazy-causal-algebra", inst_a, concretise(
